@@ -6,7 +6,7 @@
 -/
 import Lean.Data.Json
 import Boario.Sim
--- import Boario.Init
+import Boario.Init
 -- import Boario.Layout
 -- import Boario.Impact
 -- import Boario.Labels
@@ -426,6 +426,74 @@ def opEventsPost (c : Ctx) (j : Json) : Except String Json := do
   pure <| Json.mkObj [("trackers", Json.arr (trs2.map (trackerOut d)).toArray),
     ("roundMargins", Json.arr (margins.map jRat).toArray)]
 
+/-! ### construction -/
+
+def parseTable (j : Json) : Except String ((d : Dims) × Table d) := do
+  let m ← getNat j "m"; let n ← getNat j "n"; let k ← getNat j "k"
+  let d : Dims := ⟨m, n, k⟩
+  let N := nInd d; let F := nFd d
+  let Z ← getRatArr (← fld j "Z") (N * N) "Z"
+  let Y ← getRatArr (← fld j "Y") (N * F) "Y"
+  let x ← getRatArr (← fld j "x") N "x"
+  pure ⟨d, { Z := matII d Z, Y := matIF d Y, x := vecI d x }⟩
+
+def parseConfig (d : Dims) (j : Json) : Except String (Config d) := do
+  let inv ← getOptRatArr (← fld j "inventories") d.n "inventories"
+  let rest ← getRatArr (← fld j "restTau") d.n "restTau"
+  let cap ← fld j "capital"
+  let kind ← getStr cap "kind"
+  let capital : CapitalSpec d ← match kind with
+    | "default" => pure CapitalSpec.default
+    | "ratio" => do
+      let r ← getRatArr (← fld cap "values") d.n "capital.values"
+      pure (CapitalSpec.ratio fun s => r.getD s.val 0)
+    | "vector" => do
+      let v ← getRatArr (← fld cap "values") (nInd d) "capital.values"
+      pure (CapitalSpec.vector (vecI d v))
+    | _ => throw s!"unknown capital kind {kind}"
+  pure { isPsi := ← getBool j "isPsi", alt := ← getBool j "alt", aBase := ← getRatF j "aBase"
+         aMax := ← getRatF j "aMax", alphaTau := ← getRatF j "alphaTau", dt := ← getNat j "dt"
+         yearFactor := ← getNat j "yearFactor", inventories := fun s => inv.getD s.val none
+         psi := ← getRatF j "psi", restTau := fun s => rest.getD s.val 1, capital := capital }
+
+def opMkParams (j : Json) : Except String Json := do
+  let ⟨d, tb⟩ ← parseTable j
+  let c ← parseConfig d (← fld j "cfg")
+  if cfgRejected c then return Json.mkObj [("out", "rejected")]
+  let p := mkParams tb c
+  let e := initEcon p
+  pure <| Json.mkObj [("out", "ok"),
+    ("x0", jArr (tabI d p.x0)), ("Z0", jArr (tabII d p.Z0)), ("Y0", jArr (tabIF d p.Y0)),
+    ("a", jArr (tabSI d p.a)), ("thr", jBArr (tabSIb d p.thr)),
+    ("invDur", Json.arr ((allSec d).map fun s => match p.invDur s with | some v => jRat v | none => Json.null)),
+    ("psi", jRat p.psi), ("rest", Json.arr ((allSec d).map fun s => jRat (p.rest s))),
+    ("aBase", jRat p.aBase), ("aMax", jRat p.aMax), ("aTau", jRat p.aTau),
+    ("Zshare", jArr (tabII d p.Zshare)), ("K", jArr (tabI d p.K)),
+    ("stock0", jArr (tabSI d e.stock)), ("dTot0", jArr (tabI d e.dTot))]
+
+def opTrackerInit (j : Json) : Except String Json := do
+  let ⟨d, tb⟩ ← parseTable j
+  let N := nInd d; let F := nFd d
+  let ej ← fld j "ev"
+  let kind ← parseKind (← getStr ej "kind")
+  let impact ← getRatArr (← fld ej "impact") N "impact"
+  let house ← optArr ej "house" F
+  let shares ← getRatArr (← fld ej "shares") d.n "shares"
+  let isReb ← getBoolArr (← fld ej "isReb") d.n "isReb"
+  let curve ← getStr ej "curve"
+  let cn : CurveName := match curve with
+    | "linear" => .linear | "convexe" => .convexe | "convexe noscale" => .convexeNoscale | _ => .other
+  let ev : EventSpec d := {
+    kind := kind, occ := ← getNat ej "occ", dur := ← getNat ej "dur", tau := ← getNat ej "tau"
+    impact := vecI d impact, house := house.map (vecF d), emf := ← getRatF ej "emf"
+    shares := fun s => shares.getD s.val 0, isReb := fun s => isReb.getD s.val false
+    factor := ← getRatF ej "factor", curve := cn
+    curveI := fun _ _ _ => 0, curveH := fun _ _ _ => 0 }
+  let tr := trackerInit tb (← getRatF j "mf") (← getNat j "mfLog10") ev
+  pure <| Json.mkObj [("tracker", trackerOut d tr), ("dmg0", jArr (tabI d tr.dmg0)),
+    ("hdmg0", jOpt (tr.hdmg0.map fun f => jArr (tabF d f))), ("arb0", jArr (tabI d tr.arb0)),
+    ("prec", (tr.prec : Json))]
+
 /-! ### dispatcher -/
 
 def handle (ctx : Option Ctx) (line : String) : Option Ctx × Json :=
@@ -455,8 +523,8 @@ def handle (ctx : Option Ctx) (line : String) : Option Ctx × Json :=
       | "orders" => run opOrders
       | "events_pre" => run opEventsPre
       | "events_post" => run opEventsPost
---    | "mkparams" => pure' Boario.Driver.opMkParams
---    | "trackerinit" => pure' Boario.Driver.opTrackerInit
+      | "mkparams" => pure' opMkParams
+      | "trackerinit" => pure' opTrackerInit
 --    | "layout" => pure' Boario.Driver.opLayout
 --    | "impact" => pure' Boario.Driver.opImpact
 --    | "canon" => pure' Boario.Driver.opCanon
